@@ -13,7 +13,8 @@ ID = "C12"
 LEVEL = "exploration"
 EXHAUSTIVE = True
 RULE = ("the finite space {words of the generator's reserved list and Python keywords (read from the working tree at run time)} x "
-        "{top-level/nested field, flattened parameter (top-level, dotted), HTTP path variable (top-level, dotted), HTTP body, REST query, "
+        "{top-level/nested field, flattened parameter (top-level, dotted), HTTP path variable (top-level, dotted), HTTP body, REST query, REQUIRED REST query field (set and left at its "
+        "default; lower-case words), "
         "explicit routing field (top-level, nested), rpc name (keywords), proto file name (keywords + metadata/retry/timeout/request)} is "
         "enumerated completely: one library per position holding all words (bisected down to single words when it cannot be generated "
         "or imported, so every pair gets its own verdict), each pair probed through introspection and sync gRPC + REST calls whose wire "
@@ -38,7 +39,7 @@ def reserved_set():
 
 
 def floors(tier):
-    return {"pairs_judged": 500, "positions": 11, "collision_configs": 3}
+    return {"pairs_judged": 500, "positions": 12, "collision_configs": 3}
 
 
 def plan(seed, tier):
@@ -56,6 +57,10 @@ def words_for(position):
     if position == "file":
         # file names are lower-case (style guide): False/None/True are not generated as file names
         return sorted({k for k in keyword.kwlist if k.islower()} | set(CONTROL))
+    if position == "query_required":
+        # the table of REQUIRED defaults is keyed by the lowerCamel JSON name; field names are lower_snake_case (style guide), so
+        # the capitalised keywords False/None/True are not judged here (their lowerCamel form differs from protoc's json_name)
+        return [w for w in ws if w.islower()]
     return ws
 
 
@@ -164,7 +169,7 @@ def judge(position, item, o, model, api):
             vals = [x for k, x in e["headers"] if k.lower() == "x-goog-request-params"]
         return dict(urllib.parse.parse_qsl(vals[0], keep_blank_values=True)) if vals else {}
 
-    if position in ("field", "flat", "flat_dotted", "path", "path_dotted", "body", "query", "routing", "routing_nested"):
+    if position in ("field", "flat", "flat_dotted", "path", "path_dotted", "body", "query", "query_required", "routing", "routing_nested"):
         if o.get("attr") != w_:
             bad("attribute-name", f"field {w!r}: reachable attribute is {o.get('attr')!r}, expected {w_!r}")
     g = grpc_req()
@@ -235,6 +240,20 @@ def judge(position, item, o, model, api):
             bad("http-query", f"query {r['query']!r}: expected key {jn!r} (or {w!r}) = 'q v'")
         if w_ != w and w_ in q:
             bad("http-query", f"suffixed name on the wire: {r['query']!r}")
+    elif position == "query_required":
+        # a REQUIRED field in query position travels under its original JSON name exactly once, set or left at its default
+        if getattr(gm, w) != "q v":
+            bad("wire-field", f"server decoded {str(gm)[:160]!r}")
+        for label, ev_, want_val in (("set", r, "q v"), ("default", o.get("rest_default_event"), "")):
+            if ev_ is None:
+                bad("rest-call-failed", {"which": label, "error": o.get("rest_default_error")})
+                continue
+            pairs = urllib.parse.parse_qsl(ev_["query"], keep_blank_values=True)
+            keys = [k for k, _ in pairs if k in (w, jn, w_, w + "_")]
+            if keys != [jn] and keys != [w]:
+                bad("http-query", f"REQUIRED field {w!r} {label}: query {ev_['query']!r} carries keys {keys}, expected exactly [{jn!r}]")
+            elif dict(pairs).get(keys[0]) != want_val:
+                bad("http-query", f"REQUIRED field {w!r} {label}: query {ev_['query']!r}, expected value {want_val!r}")
     elif position == "routing":
         for tr, e in (("grpc", ge), ("rest", r)):
             if header(e, tr) != {w: "rv"}:
@@ -426,7 +445,7 @@ def in_runner(script):
                 iw = [a for a in (w, w + "_") if _has_field(Inner(), a)][0]
                 req = Req(**{"anchor": "anchors/a", "extra": "e1", w_: Inner(**{"other": "o", iw: "n1"})})
                 name = "call%d" % it["i"]
-            elif pos == "query":
+            elif pos in ("query", "query_required"):
                 req = Req(**{"anchor": "anchors/a", w_: "q v"})
                 name = "call%d" % it["i"]
             elif pos == "routing":
@@ -470,6 +489,15 @@ def in_runner(script):
                 evs = server.since(mark)
                 if evs:
                     o[tr + "_event"] = evs[0]
+            if pos == "query_required":
+                mark = http.mark()
+                try:
+                    getattr(rc, name)(request=Req(anchor="anchors/a"))
+                except BaseException as e:  # noqa
+                    o["rest_default_error"] = rt.exc_info(e)
+                evs = http.since(mark)
+                if evs:
+                    o["rest_default_event"] = evs[0]
         except BaseException as e:  # noqa
             o["error"] = rt.exc_info(e)
         items.append(o)
